@@ -313,82 +313,90 @@ def r06_7(ctx):
                   ("invalidCommand", cmds["invalidCommand"][0]), ("unknown", unknown_id)]
         if struct_rx:
             frames.append(("struct-schema", cmds[struct_rx][0]))
-        for kind, fid in frames:
-            for pending in (True, False):
-                for decode_ok in (True, False):
-                    for done in (False, True):
-                        if done and not pending:
-                            continue
-                        models = [("self._ezsp_frame_rx", lambda px, t, a, k, fr: (5, fid, Sym("payload"))),
-                                  ("t.deserialize_dict", Outcomes(OK(({"f0": Sym("v0"), "f1": Sym("v1")}, Sym("rest")))) if decode_ok
-                                   else Outcomes(RAISE("ValueError"))),
-                                  ("*.deserialize", Outcomes(OK((Sym("structval"), Sym("rest")))) if decode_ok
-                                   else Outcomes(RAISE("ValueError"))),
-                                  ("*.set_result", Outcomes(RAISE("InvalidStateError")) if done else Outcomes(OK(None))),
-                                  ("*.set_exception", Outcomes(RAISE("InvalidStateError")) if done else Outcomes(OK(None))),
-                                  # a done future here is one whose caller timed out or was cancelled: asking it for its outcome raises
-                                  ("*.exception", Outcomes(RAISE("CancelledError"))), ("*.result", Outcomes(RAISE("CancelledError"))),
-                                  ("*.cancelled", lambda px, t, a, k, fr: done), ("*.done", lambda px, t, a, k, fr: done),
-                                  ("binascii.hexlify", lambda px, t, a, k, fr: "hex")]
-                        px = PX(repo, models=models, inline=same_class(),
-                                facts={"rest": False, "(5 in keys({5}))": True})
-                        exp_entry = (cmds[expected][0], cmds[expected][2], fut("pending_future"))
+        configs = [(expected, frames)]
+        # two commands whose response schema is one shared object (tables built with a cache of migrated schemas): a test by
+        # schema identity instead of frame ID would let one complete the other
+        shared = next(((a, b) for a, (ia, _, ra) in cmds.items() for b, (ib, _, rb) in cmds.items()
+                       if a != b and ra is rb and isinstance(ra, dict) and ra and "invalidCommand" not in (a, b)), None)
+        if shared:
+            configs.append((shared[0], [("same-schema", cmds[shared[1]][0])]))
+        for expected, frames in configs:
+            for kind, fid in frames:
+                for pending in (True, False):
+                    for decode_ok in (True, False):
+                        for done in (False, True):
+                            if done and not pending:
+                                continue
+                            models = [("self._ezsp_frame_rx", lambda px, t, a, k, fr: (5, fid, Sym("payload"))),
+                                      ("t.deserialize_dict", Outcomes(OK(({"f0": Sym("v0"), "f1": Sym("v1")}, Sym("rest")))) if decode_ok
+                                       else Outcomes(RAISE("ValueError"))),
+                                      ("*.deserialize", Outcomes(OK((Sym("structval"), Sym("rest")))) if decode_ok
+                                       else Outcomes(RAISE("ValueError"))),
+                                      ("*.set_result", Outcomes(RAISE("InvalidStateError")) if done else Outcomes(OK(None))),
+                                      ("*.set_exception", Outcomes(RAISE("InvalidStateError")) if done else Outcomes(OK(None))),
+                                      # a done future here is one whose caller timed out or was cancelled: asking it for its outcome raises
+                                      ("*.exception", Outcomes(RAISE("CancelledError"))), ("*.result", Outcomes(RAISE("CancelledError"))),
+                                      ("*.cancelled", lambda px, t, a, k, fr: done), ("*.done", lambda px, t, a, k, fr: done),
+                                      ("binascii.hexlify", lambda px, t, a, k, fr: "hex")]
+                            px = PX(repo, models=models, inline=same_class(),
+                                    facts={"rest": False, "(5 in keys({5}))": True})
+                            exp_entry = (cmds[expected][0], cmds[expected][2], fut("pending_future"))
 
-                        def setup():
-                            return (self_obj(vcls(ctx, v), {"COMMANDS_BY_ID": by_id, "_awaiting": ({5: exp_entry, 6: (0, {}, fut("other"))} if pending else {6: (0, {}, fut("other"))}),
-                                                           "_handle_callback": Sym("cb")}),
-                                    {"data": Sym("data")})
+                            def setup():
+                                return (self_obj(vcls(ctx, v), {"COMMANDS_BY_ID": by_id, "_awaiting": ({5: exp_entry, 6: (0, {}, fut("other"))} if pending else {6: (0, {}, fut("other"))}),
+                                                               "_handle_callback": Sym("cb")}),
+                                        {"data": Sym("data")})
 
-                        paths = px.explore(f, setup)
-                        ctx.paths += len(paths)
-                        for p in paths:
-                            scen = f"v{v}:{kind},pending={pending},decode={'ok' if decode_ok else 'raises'},done={done}"
-                            calls = [e for e in p.events if e.kind == "call"]
-                            dec = [e for e in calls if e.what == "t.deserialize_dict" or e.what.endswith(".deserialize")]
-                            visited_call.update(px.visited)
-                            sr = [e for e in calls if e.what.endswith(".set_result")]
-                            sx = [e for e in calls if e.what.endswith(".set_exception")]
-                            cb = [e for e in calls if e.what == "self._handle_callback"]
-                            aw = p.store["self"].get("_awaiting")
-                            foreign = [e for e in sr + sx if e.callee and not e.callee.startswith("pending_future.")]
-                            bad = None
-                            if foreign:
-                                bad = f"a future other than the one pending under the frame's sequence number is completed: {foreign[0].callee}"
-                            elif kind == "unknown":
-                                if dec or sr or sx or cb or p.terminal != "return" or (pending and 5 not in aw):
-                                    bad = f"unknown frame ID is not dropped cleanly: {[e.what for e in dec + sr + sx + cb]}, {p.terminal}"
-                            elif not decode_ok:
-                                if not p.raised() or sr or sx or cb:
-                                    bad = f"undecodable payload: {p.terminal} {p.value!r}, completions/callbacks {[e.what for e in sr + sx + cb]}"
-                            else:
-                                if len(dec) != 1 or dec[0].args[0] != Sym("payload") or (dec[0].what == "t.deserialize_dict" and dec[0].args[1] is not by_id[fid][2]):
-                                    bad = "payload is not decoded with the schema of the frame's own ID"
-                                elif not pending:
-                                    want = [Sym("v0"), Sym("v1")] if isinstance(by_id[fid][2], dict) else Sym("structval")
-                                    if sr or sx or len(cb) != 1 or p.terminal != "return":
-                                        bad = f"frame answering no pending call: {len(cb)} callbacks, completions {[e.what for e in sr + sx]}, {p.terminal}"
-                                    elif cb[0].args != (by_id[fid][0], want):
-                                        bad = f"callback delivered as {cb[0].args!r}, must be ({by_id[fid][0]!r}, decoded values)"
+                            paths = px.explore(f, setup)
+                            ctx.paths += len(paths)
+                            for p in paths:
+                                scen = f"v{v}:{kind},pending={pending},decode={'ok' if decode_ok else 'raises'},done={done}"
+                                calls = [e for e in p.events if e.kind == "call"]
+                                dec = [e for e in calls if e.what == "t.deserialize_dict" or e.what.endswith(".deserialize")]
+                                visited_call.update(px.visited)
+                                sr = [e for e in calls if e.what.endswith(".set_result")]
+                                sx = [e for e in calls if e.what.endswith(".set_exception")]
+                                cb = [e for e in calls if e.what == "self._handle_callback"]
+                                aw = p.store["self"].get("_awaiting")
+                                foreign = [e for e in sr + sx if e.callee and not e.callee.startswith("pending_future.")]
+                                bad = None
+                                if foreign:
+                                    bad = f"a future other than the one pending under the frame's sequence number is completed: {foreign[0].callee}"
+                                elif kind == "unknown":
+                                    if dec or sr or sx or cb or p.terminal != "return" or (pending and 5 not in aw):
+                                        bad = f"unknown frame ID is not dropped cleanly: {[e.what for e in dec + sr + sx + cb]}, {p.terminal}"
+                                elif not decode_ok:
+                                    if not p.raised() or sr or sx or cb:
+                                        bad = f"undecodable payload: {p.terminal} {p.value!r}, completions/callbacks {[e.what for e in sr + sx + cb]}"
                                 else:
-                                    if cb:
-                                        bad = "a frame that matched a pending call is also delivered as a callback"
-                                    elif 5 in aw:
-                                        bad = "matched pending entry is not removed (a later frame with the same number would complete it again)"
-                                    elif kind == "expected":
-                                        if len(sr) != 1 or sx or sr[0].args != ([Sym("v0"), Sym("v1")],) or p.terminal != "return":
-                                            bad = f"expected reply: set_result {[e.args for e in sr]!r}, {p.terminal} {p.value!r}"
-                                    elif kind == "invalidCommand":
-                                        if sr or len(sx) != 1 or not (isinstance(sx[0].args[0], Obj) and sx[0].args[0].cls_name == "InvalidCommandError") or p.terminal != "return":
-                                            bad = f"invalidCommand reply: {[e.brief() for e in sr + sx]}, {p.terminal}"
+                                    if len(dec) != 1 or dec[0].args[0] != Sym("payload") or (dec[0].what == "t.deserialize_dict" and dec[0].args[1] is not by_id[fid][2]):
+                                        bad = "payload is not decoded with the schema of the frame's own ID"
+                                    elif not pending:
+                                        want = [Sym("v0"), Sym("v1")] if isinstance(by_id[fid][2], dict) else Sym("structval")
+                                        if sr or sx or len(cb) != 1 or p.terminal != "return":
+                                            bad = f"frame answering no pending call: {len(cb)} callbacks, completions {[e.what for e in sr + sx]}, {p.terminal}"
+                                        elif cb[0].args != (by_id[fid][0], want):
+                                            bad = f"callback delivered as {cb[0].args!r}, must be ({by_id[fid][0]!r}, decoded values)"
                                     else:
-                                        if sr:
-                                            bad = (f"a pending call expecting frame 0x{cmds[expected][0]:04X} is completed with the payload of frame "
-                                                   f"0x{fid:04X} ({by_id[fid][0]})")
-                            if bad:
-                                ctx.violation(f"__call__:{kind},pending={pending},decode={'ok' if decode_ok else 'raises'}", f"{scen}: {bad}",
-                                              func=f, trace=p.trace(30), construct=scen)
-                            else:
-                                ctx.ok(1, scen)
+                                        if cb:
+                                            bad = "a frame that matched a pending call is also delivered as a callback"
+                                        elif 5 in aw:
+                                            bad = "matched pending entry is not removed (a later frame with the same number would complete it again)"
+                                        elif kind == "expected":
+                                            if len(sr) != 1 or sx or sr[0].args != ([Sym("v0"), Sym("v1")],) or p.terminal != "return":
+                                                bad = f"expected reply: set_result {[e.args for e in sr]!r}, {p.terminal} {p.value!r}"
+                                        elif kind == "invalidCommand":
+                                            if sr or len(sx) != 1 or not (isinstance(sx[0].args[0], Obj) and sx[0].args[0].cls_name == "InvalidCommandError") or p.terminal != "return":
+                                                bad = f"invalidCommand reply: {[e.brief() for e in sr + sx]}, {p.terminal}"
+                                        else:
+                                            if sr:
+                                                bad = (f"a pending call expecting frame 0x{cmds[expected][0]:04X} is completed with the payload of frame "
+                                                       f"0x{fid:04X} ({by_id[fid][0]})")
+                                if bad:
+                                    ctx.violation(f"__call__:{kind},pending={pending},decode={'ok' if decode_ok else 'raises'}", f"{scen}: {bad}",
+                                                  func=f, trace=p.trace(30), construct=scen)
+                                else:
+                                    ctx.ok(1, scen)
     from .ash_link import confined_writers
 
     g_, pxc, _paths = explore_command(ctx, 8, 1, "nop")
